@@ -16,7 +16,9 @@ class Gen:
         self.nextv = 1
         self.tick = 10
         self.profile = profile
-        self.ranges = profile in ("ranges", "copy", "c19")
+        self.ranges = profile in ("ranges", "copy", "c19", "rehash", "filters")
+        self.filters = profile in ("filters",)
+        self.structured = seed % 2 == 0
         self.steps = []
         if spare:
             for d in range(self.conf.nd):
@@ -360,6 +362,39 @@ class Gen:
         self.a.lose_parity(l)
         return "lose parity %d" % l
 
+    def _filter(self):
+        """a random combination of the filters of fix: -d (data disks and parity levels), -f (base name, whole path,
+        directory), -m, -e, -b; -e/-b and -d exclude each other (snapraid.c:1183)"""
+        rng = self.rng
+        st = self.recorded()
+        names = sorted({n for d in self.rec.D for n in st["cf"][d]})
+        f = {}
+        k = rng.choice(["disk", "disk", "name", "name", "missing", "badfile", "badfile", "badblock", "name+missing", "name+bad",
+                        "disk+name"])
+        if "disk" in k:
+            f["disks"] = rng.sample(range(self.conf.nd), rng.randint(1, max(1, self.conf.nd - 1))) if rng.random() < 0.85 else []
+            f["plevels"] = [l for l in range(1, self.conf.np + 1) if rng.random() < 0.4]
+            if not f["disks"] and not f["plevels"]:
+                f["disks"] = [rng.randrange(self.conf.nd)]
+        if "name" in k and names:
+            pats = []
+            for n in rng.sample(names, min(len(names), rng.randint(1, 2))):
+                r = rng.random()
+                if "/" in n and r < 0.4:
+                    pats.append(n.split("/")[0] + "/")
+                elif r < 0.7:
+                    pats.append(n.split("/")[-1])
+                else:
+                    pats.append("/" + n)
+            f["names"] = pats
+        if "missing" in k:
+            f["missing"] = True
+        if "badfile" in k or k == "name+bad":
+            f["bad"] = "file"
+        if "badblock" in k:
+            f["bad"] = "block"
+        return f
+
     # ---- commands
     def cmd_sync(self):
         r = self.rng.random()
@@ -399,6 +434,8 @@ class Gen:
         if name == "fix":
             fl = self._range() if (self.ranges and self.rng.random() < 0.25) else []
             kw = {}
+            if self.filters and self.rng.random() < 0.75:
+                kw["filt"] = self._filter()
             if self.profile == "c19" and self.rng.random() < 0.5:
                 kind = self.rng.choice(["imp_stamp", "imp_content"])
                 kw[kind] = self.make_import(kind)
@@ -426,6 +463,8 @@ class Gen:
             return "diff -> %s" % self.rec.diff()[1]["exit"]
         if name == "list":
             return "list -> rc %s" % self.rec.list()[1]["rc"]
+        if name == "rehashcmd":
+            return "rehash command -> %s" % self.rec.rehash()[1]["exit"]
         if name == "touchcmd":
             return "touch command -> %s" % self.rec.touch()[1]["exit"]
 
@@ -442,7 +481,11 @@ class Gen:
                 ("sync", 16), ("diff", 10), ("list", 6), ("check", 4)],
         "c19": [("add", 12), ("copy", 16), ("move", 10), ("nsec", 6), ("touch", 2), ("delete", 6), ("corrupt", 3), ("lose_disk", 3),
                 ("sync", 26), ("check", 5), ("fix", 12), ("diff", 2)],
-        "detect": [("add", 8), ("delete", 3), ("corrupt", 14), ("corrupt_burst", 10), ("corrupt_parity", 14), ("sync", 14),
+        "filters": [("add", 12), ("touch", 2), ("delete", 10), ("corrupt", 14), ("corrupt_burst", 3), ("corrupt_parity", 5),
+                    ("lose_disk", 3), ("lose_parity", 3), ("sync", 14), ("check", 4), ("fix", 22), ("scrub", 14), ("diff", 1)],
+        "rehash": [("add", 14), ("copy", 5), ("touch", 2), ("delete", 8), ("corrupt", 6), ("corrupt_parity", 2), ("lose_disk", 2),
+                   ("sync", 20), ("check", 6), ("fix", 8), ("scrub", 12), ("diff", 2), ("rehashcmd", 10)],
+        "detect": [("rehashcmd", 2), ("add", 8), ("delete", 3), ("corrupt", 14), ("corrupt_burst", 10), ("corrupt_parity", 14), ("sync", 14),
                    ("check", 18), ("scrub", 14), ("fix", 6)],
         "damage": [("add", 10), ("delete", 6), ("corrupt", 14), ("corrupt_parity", 8), ("lose_disk", 6), ("lose_parity", 5),
                    ("sync", 18), ("check", 10), ("fix", 16), ("scrub", 8)],
@@ -462,6 +505,10 @@ class Gen:
                 self.a.clock += 10
                 r, out = self.rec.sync(*(["-E"] if rng.random() < 0.5 else []))
                 self.steps.append("sync -> %s" % out["exit"])
+                # a hash migration may be in progress when the last sync is made (part of the stripes still carry hashes
+                # of the previous function)
+                if rng.random() < 0.2:
+                    self.steps.append("rehash command -> %s" % self.rec.rehash()[1]["exit"])
             r, out = self.rec.sync("-E")
             self.steps.append("sync -E -> %s" % out["exit"])
             if out["exit"] != "ok":
@@ -474,8 +521,23 @@ class Gen:
                 devs = rng.sample([("d", i) for i in range(nd)] + [("p", l) for l in range(npar)], min(k, nd + npar))
                 for kind, i in devs:
                     if kind == "d":
-                        how = rng.choice(["lose", "lose", "files", "corrupt"])
-                        if how == "lose":
+                        how = rng.choice(["lose", "lose", "files", "corrupt", "swap", "swap"])
+                        pairs = []
+                        if how == "swap":
+                            fl = st["fs"][str(i)]
+                            pairs = [(x, y) for x in sorted(fl) for y in sorted(fl) if x < y and fl[x]["sz"] == fl[y]["sz"]
+                                     and fl[x]["mt"] != fl[y]["mt"] and fl[x]["sz"] > 0]
+                            if not pairs:
+                                how = "lose"
+                        if how == "swap":
+                            # the directory entries of two files of the same size are exchanged (what a rebuilt disk whose files
+                            # got their inodes in another order looks like): each name now has the bytes, the time stamp and the
+                            # inode recorded for the other
+                            x, y = rng.choice(pairs)
+                            px, py = self.a.path(i, x), self.a.path(i, y)
+                            os.rename(px, px + ".swap"); os.rename(py, px); os.rename(px + ".swap", py)
+                            desc = "swap %d/%s <-> %s" % (i, x, y)
+                        elif how == "lose":
                             self.a.lose_disk(i); desc = "lose disk %d" % i
                         elif how == "files":
                             gone = [f for f in self.files(i) if rng.random() < 0.6]
@@ -618,6 +680,54 @@ class Gen:
         r, o = rec.fix(); self.steps.append("fix -> %s" % o["exit"])
         r, o = rec.check(); self.steps.append("check -> %s" % o["exit"])
 
+    # ---- filtered fixes: damage of several kinds, optionally found by scrub first, then fix under a filter, then a plain fix
+    def filters_round(self):
+        rng = self.rng
+        for _ in range(rng.randint(1, 3)):
+            desc = rng.choice([self.op_add, self.op_add, self.op_delete, self.op_touch])()
+            if desc:
+                self.rec.env(desc); self.steps.append(desc)
+        self.a.clock += 10
+        self.steps.append(self.cmd_sync())
+        if rng.random() < 0.7:
+            self.a.clock += 10
+            r, out = self.rec.sync(); self.steps.append("sync -> %s" % out["exit"])
+        for _ in range(rng.randint(1, 4)):
+            name = rng.choice(["corrupt", "corrupt", "corrupt", "corrupt_burst", "corrupt_parity", "delete", "delete", "lose_disk",
+                               "lose_parity", "add"])
+            desc = getattr(self, "op_" + name)()
+            if desc:
+                self.rec.env(desc, damage=name not in ("add",)); self.steps.append(desc)
+            if name.startswith("corrupt") and rng.random() < 0.6:
+                self.steps.append(self.cmd("scrub"))
+                m = re.match(r"corrupt (\d+)/(\S+?)\[", desc or "")
+                if m and rng.random() < 0.5 and os.path.exists(self.a.path(int(m.group(1)), m.group(2))):
+                    # the user removes the file that scrub has found damaged
+                    self.a.remove(int(m.group(1)), m.group(2))
+                    desc = "delete %s/%s" % (m.group(1), m.group(2))
+                    self.rec.env(desc, damage=True); self.steps.append(desc)
+                elif rng.random() < 0.3:
+                    desc = self.op_touch()
+                    if desc:
+                        self.rec.env(desc); self.steps.append(desc)
+        for _ in range(rng.randint(1, 2)):
+            self.steps.append(self.cmd("fix"))
+        if rng.random() < 0.6:
+            self.a.clock += 10
+            r, out = self.rec.fix(); self.steps.append("fix -> %s" % out["exit"])
+            self._cleanup_unrec()
+            r, out = self.rec.check(); self.steps.append("check -> %s" % out["exit"])
+
+    def _cleanup_unrec(self):
+        gone = []
+        for d in range(self.conf.nd):
+            for f in os.listdir(self.a.ddir(d)):
+                if f.endswith(".unrecoverable"):
+                    os.remove(os.path.join(self.a.ddir(d), f))
+                    gone.append("%d/%s" % (d, f))
+        if gone:
+            self.rec.env("cleanup " + " ".join(gone)); self.steps.append("cleanup " + " ".join(gone))
+
     def step(self):
         ops = self.WEIGHTS[self.profile]
         tot = sum(w for _, w in ops)
@@ -628,7 +738,7 @@ class Gen:
                 break
         if name == "sync":
             desc = self.cmd_sync()
-        elif name in ("check", "fix", "scrub", "diff", "touchcmd", "list"):
+        elif name in ("check", "fix", "scrub", "diff", "touchcmd", "list", "rehashcmd"):
             desc = self.cmd(name)
         else:
             desc = getattr(self, "op_" + name)()
@@ -643,6 +753,10 @@ class Gen:
             return self.rec
         if self.profile == "grammar":
             self.grammar_history()
+            return self.rec
+        if self.profile == "filters" and self.structured:
+            for _ in range(max(2, n // 8)):
+                self.filters_round()
             return self.rec
         for _ in range(n):
             self.step()
